@@ -10,7 +10,7 @@ of the starting classes the properties name.
 import z3
 from vc import sorts as T
 from vc.values import *  # noqa
-from vc.engine import PyRaise, PathPruned, LOCK_CLASSES
+from vc.engine import PyRaise, PathPruned, LOCK_CLASSES, Obligation
 from vc.interp import Interp
 from vc.lib import TRUE, FALSE
 from contracts.common import *  # noqa
@@ -128,6 +128,26 @@ def _delete(state):
         return sc
     return f
 
+
+def _delete_orphan(it):
+    """pid reference without a cid list (what an interrupted tag_object leaves)."""
+    w = World(it)
+    ctx = it.ctx
+    pid = sym_str("pid")
+    p = pid.term
+    ctx.assume(T.wsfree(p))
+    st = P_of(w.fs0, w.self, p)
+    ctx.assume(z3.And(T.is_Data(st), T.ishex(T.f_data(st))))
+    c = T.as_text(st)
+    w.add_cid(c)
+    ctx.assume(T.is_Absent(C_of(w.fs0, c)))
+    sc = Sc(w, [w.self, pid], pid=p, cid=c)
+    sc.spec = objects.delete_object
+    return sc
+
+
+scenario("delete_object: orphan pid reference", F + "delete_object",
+         ("C07", "C10", "C13"))(_delete_orphan)
 
 for _st in ("sole reference", "shared object"):
     scenario("delete_object: " + _st, F + "delete_object", ("C09", "C10", "C13", "C08"))(_delete(_st))
@@ -340,7 +360,72 @@ def run_steps(eng, lib, name):
                          lines_kept(sc, fs_now), props=("C10",))
                 c.oblige(f"{tag}/K1-shared-object-kept-at-every-step",
                          shared_object_kept(sc, fs_now), props=("C10",))
-        ctx.monitors = [monitor]
+        reads = []      # (location, locks held) of reads/probes of guarded locations
+
+        def lock_monitor(c, ev):
+            """C07 / C12 lock discipline on the primitives of the call (threading flavour)."""
+            if c.replaying() or c.spec_mode:
+                return
+            kind = ev["kind"]
+            held = ev["held"]
+            classes = sorted({cl for cl, _ in held})
+            target = ev.get("dst", ev.get("loc"))
+            if target is None or kind in ("close", "seek", "lock-test", "acquire", "release",
+                                          "monitor-enter", "monitor-exit", "notify", "wait",
+                                          "waited", "probe-dir", "makedirs", "listdir", "fault"):
+                if kind == "release":
+                    # 2P: remember that this lock is gone for the locations read under it
+                    for r in reads:
+                        if any(cl == ev["lockcls"] for cl, _ in r[1]) and \
+                                not any(cl == ev["lockcls"] for cl, _ in held):
+                            r[2].append(ev["lockcls"])
+                return
+            targets = [target]
+            if kind == "move":
+                targets.append(ev["src"])       # a rename writes both ends
+            for tg in targets:
+                check_access(c, ev, kind, tg, held, classes)
+
+        def check_access(c, ev, kind, target, held, classes):
+            k = z3.simplify(T.l_kind(target))
+            if not z3.is_int_value(k):
+                return
+            kk = k.as_long()
+            marks = z3.simplify(T.l_marks(target))
+            if kk not in (T.K_OBJ, T.K_PIDREF, T.K_CIDREF, T.K_META) or not z3.is_int_value(marks) \
+                    or marks.as_long() != 0:
+                return
+            kname = T.KIND_NAMES[kk]
+            if kind in ("probe", "open-r"):
+                reads.append((target, list(held), []))
+                c.engine.record(Obligation(f"lockset/{name}/read {kname}", "info", 0.0,
+                                           ",".join(classes), site=fn))
+                return
+            if kind not in ("move", "remove", "write", "truncate", "open-w", "open-a", "open-r+"):
+                return
+            c.engine.record(Obligation(f"lockset/{name}/write {kname}", "info", 0.0,
+                                       ",".join(classes), site=fn))
+            key = T.l_k1(target)
+            if kk in (T.K_OBJ, T.K_CIDREF):
+                guard = z3.Or(False, *[kv == key for cl, kv in held if cl == "cid"])
+                what = "cid lock of that very cid"
+            elif kk == T.K_PIDREF:
+                guard = z3.Or(False, *[H(w.self, kv) == key for cl, kv in held
+                                       if cl in ("refpid", "objpid")])
+                what = "a pid lock of that very pid"
+            else:
+                guard = z3.Or(False, *[kv == T.l_k2(target) for cl, kv in held if cl == "doc"])
+                what = "document lock of that very document"
+            c.oblige(f"{tag}/W-{kname}-written-under-{'its-cid-lock' if kk in (T.K_OBJ, T.K_CIDREF) else 'its-pid-lock' if kk == T.K_PIDREF else 'its-document-lock'}",
+                     guard, detail=f"{kind} of {kname} holding {classes or 'nothing'}; needs the {what}",
+                     props=("C07", "C12"))
+            # 2P: no write to a location that was read under a lock released in between
+            for loc_r, held_r, released in reads:
+                if released and z3.is_true(z3.simplify(loc_r == target)):
+                    c.fail(f"{tag}/2P-no-write-after-releasing-the-lock-it-was-read-under",
+                           f"{kname} read under {sorted({cl for cl, _ in held_r})}, "
+                           f"{released} released, then {kind}", props=("C07", "C12"))
+        ctx.monitors = [monitor, lock_monitor]
         try:
             it.run_body(fn, sc.args, {})
             out = "return"
